@@ -389,7 +389,7 @@ class RejectMachine(Machine):
                 out.append(("R9", {"call": "rebin", "edges": e}))
             out.append(("R9", {"call": "ctor", "edges": [2.0, 1.0, 3.0]}))
             return out
-        return [("R10", {"call": "cycle"}), ("R10", {"call": "cycle_add"}), ("R10", {"call": "dup"}), ("R10", {"call": "self_dep"})]
+        return [("R10", {"call": "cycle"}), ("R10", {"call": "cycle_add"}), ("R10", {"call": "dup"}), ("R10", {"call": "self_dep"}), ("R10", {"call": "cycle_foreign"})]
 
     # ------------------------------------------------------------------ shrinking
     def simplify(self, op):
@@ -852,6 +852,21 @@ class RejectMachine(Machine):
                         return g["nexus"].add_dependency(g["nodes"][low].name, g["nodes"][top].name)
                     if c == "self_dep":
                         return g["nexus"].add_dependency(g["nodes"][top].name, g["nodes"][top].name)
+                    if c == "cycle_foreign":
+                        # the cycle closes through nodes of a SECOND graph whose nodes carry names that exist here as well (the layout a multi-fit
+                        # builds: member graphs + aliases in a combined graph).  Valid set-up on both graphs, then the malformed call on main only.
+                        cand = [x for x in below if deps[x]]
+                        leaves = sorted(x for x in deps if not deps[x])
+                        if not cand or not leaves:
+                            raise NotApplicable("no function below / no parameter")
+                        for gg in (twin, main):
+                            fl, leaf = gg["nodes"][cand[0]], gg["nodes"][leaves[0]]
+                            other = nx.Nexus()
+                            same_name = other.add(nx.Function(lambda a: a, name=leaf.name, parameters=[fl]), add_children=False)  # another node called like `leaf`
+                            root = other.add(nx.Function(lib["add"], name="foreign_root%d" % step, parameters=[same_name, leaf]), add_children=False)
+                            gg["foreign%d" % step] = gg["nexus"].add(nx.Alias(root, name="foreign%d" % step), add_children=False)
+                        # fl -> alias -> root -> same_name -> fl
+                        return g["nexus"].add_dependency(g["nodes"][cand[0]].name, "foreign%d" % step)
                     if c == "dup":
                         return g["nexus"].add(nx.Parameter(99.0, name=g["nodes"][low].name), existing_behavior="fail")
                     if c == "cycle_add":
